@@ -169,7 +169,7 @@ func ckksEvaluatorTarget() *Target {
 	}()
 
 	t := &Target{
-		Name: "ckks.Evaluator", Envs: []string{"ckks", "ckks-1p", "ckks-prec"},
+		Name: "ckks.Evaluator", Envs: []string{"ckks", "ckks-1p", "ckks-prec", "ckks-ci"},
 		Type: reflect.TypeOf(&ckks.Evaluator{}),
 		New: func(e *Env) interface{} {
 			ev := ckks.NewEvaluator(e.CKKS, e.Evk)
